@@ -358,6 +358,10 @@ def verify_find(rep):
     # -- inductive step through the real loop body
     env = {params[0]: number, params[1]: z3.Const('prefixes', Tree), PV: part, QV: props, NV: nxt,
            names[0]: len_(j), names[1]: low_(j), names[2]: high_(j), names[3]: props_(j), names[4]: ch_(j)}
+    # other prologue bindings (e.g. a hoisted len(number)) keep their prologue value if the loop does not rebind them
+    assigned_in_loop = {n.id for st in loop.body for n in ast.walk(st) if isinstance(n, ast.Name) and isinstance(n.ctx, ast.Store)}
+    extra_env = {v: env0[v] for v in state_vars if v not in (PV, QV, NV) and v not in assigned_in_loop and not isinstance(env0[v], tuple)}
+    env.update(extra_env)
     lq = z3.Int('lq')
     hyp = [z3.Length(number) > 0, inv(j, part, props, nxt), below(j, len_(j)), below(j, lq)] + unfold + unfold_at(len_(j)) \
         + unfold_at(min2(j)) + unfold_at(lq) + unfold_at(min2(j + 1)) + wf + monoid
@@ -389,6 +393,7 @@ def verify_find(rep):
     # -- epilogue: with the invariant at the end (index N) the returned value is the spec, the parts concatenate, the measure decreases
     N = z3.Int('N')
     envN = {params[0]: number, params[1]: z3.Const('prefixes', Tree), PV: part, QV: props, NV: nxt}
+    envN.update(extra_env)
     invN = z3.substitute(inv(j, part, props, nxt), (j, N))
     hypN = [z3.Length(number) > 0, invN]
     ev = SeqEval(hypN)
